@@ -17,11 +17,6 @@ type condSt struct {
 
 type semSt struct{ size, cur int64 }
 
-type ctxSt struct {
-	done   bool
-	parent *ctxSt
-}
-
 type ChanV struct {
 	buf    []Value
 	cap    int
@@ -59,6 +54,9 @@ var readyFns = map[string]func(in *Interp, g *G, a []Value) bool{
 	},
 	"(*golang.org/x/sync/semaphore.Weighted).Acquire": func(in *Interp, g *G, a []Value) bool {
 		s := in.side[a[0].R.(*Value)].(*semSt)
+		if c := ctxOf(a[1]); c != nil && c.done != nil && c.done.closed {
+			return true
+		}
 		return s.cur+sextW(a[2].N, 64) <= s.size
 	},
 }
@@ -143,14 +141,26 @@ func (in *Interp) RunExplore(fn *ssa.Function) {
 			}
 		}
 		if len(enabled) == 0 {
+			if in.fireTimer() {
+				continue
+			}
 			in.reportDeadlock()
 			panic(abortPath{"deadlock"})
 		}
 		var next *G
-		if curEnabled && in.PreemptBound >= 0 && preempt >= in.PreemptBound {
+		if in.exploreOff {
+			// deterministic region: keep running the current goroutine, else the oldest enabled one
+			if curEnabled {
+				next = cur
+			} else {
+				next = enabled[0]
+			}
+		} else if curEnabled && in.PreemptBound >= 0 && preempt >= in.PreemptBound {
 			next = cur
 		} else {
-			next = enabled[in.Pick(len(enabled), "sched")]
+			k := in.Pick(len(enabled), "sched")
+			next = enabled[k]
+			in.schedTrace = append(in.schedTrace, next.id)
 			if curEnabled && next != cur {
 				preempt++
 			}
